@@ -123,10 +123,11 @@ pub fn install_panic_hook() {
             for l in bt.lines() {
                 let l = l.trim();
                 if let Some(rest) = l.strip_prefix("at /repo/") {
-                    let mut it = rest.rsplitn(3, ':');
-                    let _col = it.next();
-                    let line = it.next().unwrap_or("?");
-                    let file = it.next().unwrap_or(rest);
+                    // "<file>:<line>:<col>" or "<file>:<line>"
+                    let parts: Vec<&str> = rest.split(':').collect();
+                    let nums = parts.iter().rev().take_while(|p| !p.is_empty() && p.chars().all(|c| c.is_ascii_digit())).count();
+                    let file = parts[..parts.len() - nums].join(":");
+                    let line = if nums >= 1 { parts[parts.len() - nums] } else { "?" };
                     found = Some(format!("{file}:{line}"));
                     break;
                 }
